@@ -198,6 +198,29 @@ theorem decodeB64_length : ∀ (t b : Bytes), decodeB64 t = some b → 4 * b.len
       simp only [List.length_cons]; omega
     · simp at h
 
+/-- `urlsafe_b64encode(urlsafe_b64decode(t)) == t` on the strict domain (alphabet only, length a multiple of 4) -/
+theorem encode_decode : ∀ (t b : Bytes), decodeB64 t = some b → encodeB64 b = t
+  | [], b, h => by simp [decodeB64] at h; subst h; rfl
+  | [_], b, h => by simp [decodeB64] at h
+  | [_, _], b, h => by simp [decodeB64] at h
+  | [_, _, _], b, h => by simp [decodeB64] at h
+  | c0 :: c1 :: c2 :: c3 :: rest, b, h => by
+    simp only [decodeB64] at h
+    split at h
+    · rename_i s0 s1 s2 s3 r h0 h1 h2 h3 hr
+      cases h
+      have ih := encode_decode rest r hr
+      obtain ⟨_, l0, k0⟩ := stdIdx_spec c0 s0 h0
+      obtain ⟨_, l1, k1⟩ := stdIdx_spec c1 s1 h1
+      obtain ⟨_, l2, k2⟩ := stdIdx_spec c2 s2 h2
+      obtain ⟨_, l3, k3⟩ := stdIdx_spec c3 s3 h3
+      have e0 : (s0 * 4 + s1 / 16) / 4 = s0 := by omega
+      have e1 : (s0 * 4 + s1 / 16) % 4 * 16 + (s1 % 16 * 16 + s2 / 4) / 16 = s1 := by omega
+      have e2 : (s1 % 16 * 16 + s2 / 4) % 16 * 4 + (s2 % 4 * 64 + s3) / 64 = s2 := by omega
+      have e3 : (s2 % 4 * 64 + s3) % 64 = s3 := by omega
+      simp only [encodeB64, e0, e1, e2, e3, k0, k1, k2, k3, ih]
+    · simp at h
+
 /-- regenerated table fact about every (zeroth, later) code pair: same number / mid widths, the count field can hold `MaxGramCount`,
 the zeroth code is in `ZeroDex`, the later one in `GramDex` only -/
 def pairOk (p : Bytes × Bytes) : Bool :=
@@ -205,7 +228,8 @@ def pairOk (p : Bytes × Bytes) : Bool :=
   | .ok zs, .ok ns =>
     ns.nz == zs.nz && ns.mz == zs.mz && decide (1 ≤ zs.nz) && decide (Gen.maxGramCount < 64 ^ zs.nz) && decide (1 ≤ Gen.maxGramCount) &&
       Gen.zeroDex.contains p.1 && !Gen.zeroDex.contains p.2 && Gen.gramDex.contains p.2 && decide (zs.mz % 4 = 0) &&
-      ns.az == zs.az && ns.vz == 0 && (zs.az == 0 || (Gen.authDex.contains p.1 && Gen.authDex.contains p.2))
+      ns.az == zs.az && ns.vz == 0 && (zs.az == 0 || (Gen.authDex.contains p.1 && Gen.authDex.contains p.2)) &&
+      (zs.az == 0 || zs.scale.az != 0) && (zs.vz == 0 || zs.scale.vz != 0) && decide (zs.vz % 4 = 0)
   | _, _ => false
 
 theorem pairs_table : ∀ p ∈ Gen.memoPairs, pairOk p = true := by decide
@@ -213,7 +237,8 @@ theorem pairs_table : ∀ p ∈ Gen.memoPairs, pairOk p = true := by decide
 theorem pair_facts (code ncode : Bytes) (zs ns : Sizage) (hp : lookupPair code = .ok ncode) (hzs : sizesOf code = .ok zs) (hns : sizesOf ncode = .ok ns) :
     ns.nz = zs.nz ∧ ns.mz = zs.mz ∧ 1 ≤ zs.nz ∧ Gen.maxGramCount < 64 ^ zs.nz ∧ 1 ≤ Gen.maxGramCount ∧
       Gen.zeroDex.contains code = true ∧ Gen.zeroDex.contains ncode = false ∧ Gen.gramDex.contains ncode = true ∧ zs.mz % 4 = 0 ∧
-      ns.az = zs.az ∧ ns.vz = 0 ∧ (zs.az ≠ 0 → Gen.authDex.contains code = true ∧ Gen.authDex.contains ncode = true) := by
+      ns.az = zs.az ∧ ns.vz = 0 ∧ (zs.az ≠ 0 → Gen.authDex.contains code = true ∧ Gen.authDex.contains ncode = true) ∧
+      (zs.az ≠ 0 → zs.scale.az ≠ 0) ∧ (zs.vz ≠ 0 → zs.scale.vz ≠ 0) ∧ zs.vz % 4 = 0 := by
   have hmem : (code, ncode) ∈ Gen.memoPairs := by
     unfold lookupPair at hp
     split at hp
@@ -223,12 +248,22 @@ theorem pair_facts (code ncode : Bytes) (zs ns : Sizage) (hp : lookupPair code =
   unfold pairOk at this
   simp only [hzs, hns] at this
   simp only [Bool.and_eq_true, beq_iff_eq, decide_eq_true_eq, Bool.not_eq_true'] at this
-  obtain ⟨⟨⟨⟨⟨⟨⟨⟨⟨⟨⟨h1, h2⟩, h3⟩, h4⟩, h5⟩, h6⟩, h7⟩, h8⟩, h9⟩, h10⟩, h11⟩, h12⟩ := this
-  refine ⟨h1, h2, h3, h4, h5, h6, h7, h8, h9, h10, h11, ?_⟩
-  intro hz
-  simp only [Bool.or_eq_true, beq_iff_eq, Bool.and_eq_true] at h12
-  rcases h12 with h | h
-  · exact absurd h hz
-  · exact h
+  obtain ⟨⟨⟨⟨⟨⟨⟨⟨⟨⟨⟨⟨⟨⟨h1, h2⟩, h3⟩, h4⟩, h5⟩, h6⟩, h7⟩, h8⟩, h9⟩, h10⟩, h11⟩, h12⟩, h13⟩, h14⟩, h15⟩ := this
+  refine ⟨h1, h2, h3, h4, h5, h6, h7, h8, h9, h10, h11, ?_, ?_, ?_, h15⟩
+  · intro hz
+    simp only [Bool.or_eq_true, beq_iff_eq, Bool.and_eq_true] at h12
+    rcases h12 with h | h
+    · exact absurd h hz
+    · exact h
+  · intro hz
+    simp only [Bool.or_eq_true, beq_iff_eq, bne_iff_ne, ne_eq] at h13
+    rcases h13 with h | h
+    · exact absurd h hz
+    · exact h
+  · intro hz
+    simp only [Bool.or_eq_true, beq_iff_eq, bne_iff_ne, ne_eq] at h14
+    rcases h14 with h | h
+    · exact absurd h hz
+    · exact h
 
 end Hio.Memo
